@@ -105,6 +105,28 @@ void h_DMP_truncate(void)
 //@harness h_DMP_isRetained enforce=DensityMatrixPart_isRetained props=C19 min_obl=33 reach=1 timeout=120
 void h_DMP_isRetained(void) { struct DensityMatrixPart *p; DensityMatrixPart_isRetained(p); REACH("exit"); }
 
+/* =========================================================== DensityMatrixPart::getWeight(s), getPartialZ()  (C09)
+ * DensityMatrixPart.h: "Returns the weight corresponding to a specified state. \param[in] s State inside this part" /
+ * "Returns the partition function of this part": the stored weight of state s (s inside the block is a PRE-condition: Eigen's
+ * operator() is unchecked under NDEBUG) resp. the stored Z_part; nothing is written. */
+//@function Pomerol::DensityMatrixPart::getWeight(unsigned long) const as DensityMatrixPart_getWeight
+//@contract
+__CPROVER_requires(__CPROVER_is_fresh(self, sizeof(*self)))
+__CPROVER_requires(RealVector_wf(&self->weights, SP_MAX) && s < (unsigned long)self->weights.size)
+__CPROVER_assigns()
+__CPROVER_ensures(D_SAME(__CPROVER_return_value, self->weights.data[s]))
+//@end
+//@function Pomerol::DensityMatrixPart::getPartialZ() const as DensityMatrixPart_getPartialZ
+//@contract
+__CPROVER_requires(__CPROVER_is_fresh(self, sizeof(*self)))
+__CPROVER_assigns()
+__CPROVER_ensures(D_SAME(__CPROVER_return_value, self->Z_part))
+//@end
+//@harness h_DMP_getWeight enforce=DensityMatrixPart_getWeight props=C09 min_obl=75 reach=1 timeout=120
+void h_DMP_getWeight(void) { struct DensityMatrixPart *p; unsigned long s; DensityMatrixPart_getWeight(p, s); REACH("exit"); }
+//@harness h_DMP_getPartialZ enforce=DensityMatrixPart_getPartialZ props=C09 min_obl=33 reach=1 timeout=120
+void h_DMP_getPartialZ(void) { struct DensityMatrixPart *p; DensityMatrixPart_getPartialZ(p); REACH("exit"); }
+
 /* =========================================================== DensityMatrixPart::computeUnnormalized  (C09)
  * "weights exp(-beta(E-E_ground))": for beta > 0 finite, GroundEnergy finite, eigenvalues finite and >= GroundEnergy:
  *   every exponent is <= 0 (exp stub), every weight is in [0,1] (ghost state g_q), none is NaN,
@@ -208,7 +230,7 @@ static inline struct DensityMatrixPart **PartVec_at(PartVec *v, unsigned long i)
   return &v->cur;
 }
 /* StatesClassification (C07 package): contract stubs.  NumberOfBlocks() = number of blocks; getBlockSize(b) needs a block number */
-struct StatesClassification { long nblocks; };
+struct StatesClassification { long nblocks; unsigned int Status; unsigned long StateSize; };
 unsigned long nondet_size(void);
 #ifndef VERIF_BLOCKNUMBER_DEFINED
 #define VERIF_BLOCKNUMBER_DEFINED
@@ -387,6 +409,116 @@ void h_DM_compute(void)
   if (g_n_cu == 0) REACH("exit_already_computed"); else REACH("exit_computed");
 }
 
+/* ---- DensityMatrix::getWeight(state), getPart(BlockNumber), getPart(QuantumNumbers)  (C09; DensityMatrix.h: "Returns the value of the
+ * density matrix corresponding to a specified quantum state" / "Returns a part of the density matrix. \param in A part number" /
+ * "... A set of the quantum numbers to be resolved into a part number").
+ * StatesClassification (C07 package, under contract in states.c: h_getBlockNumber_q, h_getInnerState_q) is a CONTRACT STUB:
+ *   getBlockNumber(state) / getInnerState(state): exStatusMismatch / exWrongState iff S is not computed or state >= StateSize;
+ *     otherwise block(state) resp. inner(state) (opaque oracles of the state).
+ *     ASSUMED = their post-conditions under the representation invariant SC_REP of states.c (post-condition of
+ *     StatesClassification::compute): 0 <= block(state) < number of blocks, inner(state) < size of that block.
+ *   getBlockNumber(QuantumNumbers): exStatusMismatch iff not computed; the block with these quantum numbers, ERROR_BLOCK_NUMBER (-1) if none.
+ * DensityMatrixPart::getWeight(s) (h_DMP_getWeight above) is a MONITOR here: its pre-condition s < size of the block is asserted,
+ *   its value is the opaque weight(k, s) of the part at position k.
+ * Type invariant (DensityMatrix::prepare, dmprepare.c): parts.size() == S.NumberOfBlocks(); part k belongs to block k. */
+int __CPROVER_uninterpreted_block_of(unsigned long);
+unsigned long __CPROVER_uninterpreted_inner_of(unsigned long);
+unsigned long __CPROVER_uninterpreted_block_size(long);
+int __CPROVER_uninterpreted_block_of_qn(unsigned long);
+double __CPROVER_uninterpreted_part_weight(long, unsigned long);
+//@record Pomerol::Symmetrizer::QuantumNumbers => QN ptr
+typedef struct QN { unsigned long hash; } QN;
+static inline BlockNumber SC_stub_getBlockNumber_state(struct StatesClassification *S, unsigned long state)
+{
+  BlockNumber b; b.number = -1;
+  if (S->Status < Computed || state >= S->StateSize) { VERIF_THROW("exStatusMismatch/exWrongState"); return b; }
+  b.number = __CPROVER_uninterpreted_block_of(state);
+  /* ASSUMED (states.c, SC_REP): the stored block index of a state is a block number */
+  __CPROVER_assume(0 <= b.number && b.number < S->nblocks);
+  return b;
+}
+static inline unsigned long SC_stub_getInnerState(struct StatesClassification *S, unsigned long state)
+{
+  if (S->Status < Computed || state >= S->StateSize) { VERIF_THROW("exStatusMismatch/exWrongState"); return 0; }
+  unsigned long i = __CPROVER_uninterpreted_inner_of(state);
+  /* ASSUMED (states.c, h_getInnerState_q + SC_REP): the position of the state inside its block */
+  __CPROVER_assume(i < __CPROVER_uninterpreted_block_size(__CPROVER_uninterpreted_block_of(state)));
+  return i;
+}
+BlockNumber g_bn_tmp;   /* the temporary BlockNumber returned by value (the printer takes its address for `operator int`) */
+static inline BlockNumber *SC_stub_getBlockNumber_qn_p(struct StatesClassification *S, QN in)
+{
+  __CPROVER_assert(S->Status >= Computed, "StatesClassification::getBlockNumber(QuantumNumbers): computed (else exStatusMismatch; that exit is not modelled inside an expression)");
+  g_bn_tmp.number = __CPROVER_uninterpreted_block_of_qn(in.hash);
+  /* ASSUMED (StatesClassification.cpp: QuantumToBlock maps to stored block numbers, else ERROR_BLOCK_NUMBER) */
+  __CPROVER_assume(-1 <= g_bn_tmp.number && g_bn_tmp.number < S->nblocks);
+  return &g_bn_tmp;
+}
+#define SC_stub_getBlockNumber_qn(S_, in_) (*SC_stub_getBlockNumber_qn_p((S_), (in_)))
+double mon_part_getWeight(struct DensityMatrixPart *part, unsigned long s)
+{
+  PartVec *v = &g_dm->parts; long k = v->last_pos;
+  __CPROVER_assert(0 <= k && k < (long)v->n && part == PART_AT(k), "C09: the part asked is the vector element just selected");
+  __CPROVER_assert(s < __CPROVER_uninterpreted_block_size(k), "C09: DensityMatrixPart::getWeight(s): s is a state inside the block");
+  REACH("part_getWeight");
+  return __CPROVER_uninterpreted_part_weight(k, s);
+}
+//@rename DensityMatrixPart_getWeight => mon_part_getWeight
+//@rename StatesClassification_getBlockNumber => SC_stub_getBlockNumber_state
+//@rename StatesClassification_getInnerState => SC_stub_getInnerState
+//@maythrow SC_stub_getBlockNumber_state SC_stub_getInnerState
+//@function Pomerol::DensityMatrix::getWeight(unsigned long) const as DensityMatrix_getWeight
+//@contract
+__CPROVER_requires(__CPROVER_is_fresh(self, sizeof(*self)) && g_dm == self && !VERIF_thrown)
+__CPROVER_requires(__CPROVER_is_fresh(self->S, sizeof(*self->S)) && self->parts.n <= PV_MAX && (long)self->parts.n == self->S->nblocks)
+__CPROVER_assigns(self->parts.cur, self->parts.last_pos, VERIF_thrown)
+/* rejected exactly: density matrix not computed, states classification not computed, or not a state of the model */
+__CPROVER_ensures(VERIF_thrown == (self->Status < Computed || self->S->Status < Computed || state >= self->S->StateSize))
+/* otherwise the weight of the state's block at the state's inner position */
+__CPROVER_ensures(!VERIF_thrown ==> D_SAME(__CPROVER_return_value,
+    __CPROVER_uninterpreted_part_weight(__CPROVER_uninterpreted_block_of(state), __CPROVER_uninterpreted_inner_of(state))))
+//@end
+//@harness h_DM_getWeight enforce=DensityMatrix_getWeight props=C09 min_obl=177 reach=3 timeout=120
+void h_DM_getWeight(void)
+{
+  struct DensityMatrix *dm; unsigned long state;
+  DensityMatrix_getWeight(dm, state);
+  if (VERIF_thrown) REACH("rejected"); else REACH("exit");
+}
+
+/* getPart(b) = *parts[b]: b in [0, #parts) is a PRE-condition (operator[] is unchecked; the callers' obligation, discharged in
+ * gf.c / susc.c / tpgf.c / ensavg.c from the bimap invariant B3).  Result: the part at position b; nothing else is touched. */
+//@function Pomerol::DensityMatrix::getPart(Pomerol::BlockNumber) const as DensityMatrix_getPart_b
+//@contract
+__CPROVER_requires(__CPROVER_is_fresh(self, sizeof(*self)) && g_dm == self)
+__CPROVER_requires(self->parts.n <= PV_MAX && 0 <= in.number && (unsigned long)in.number < self->parts.n)
+__CPROVER_assigns(self->parts.cur, self->parts.last_pos)
+__CPROVER_ensures(__CPROVER_return_value == PART_AT(in.number))
+//@end
+//@harness h_DM_getPart_b enforce=DensityMatrix_getPart_b props=C09 min_obl=72 reach=1 timeout=120
+void h_DM_getPart_b(void) { struct DensityMatrix *dm; BlockNumber b; DensityMatrix_getPart_b(dm, b); REACH("exit"); }
+
+/* getPart(QuantumNumbers) = *parts[S.getBlockNumber(in)]: the part of the block with these quantum numbers.  PRE-conditions: the
+ * states classification is computed (otherwise exStatusMismatch: that exit is NOT covered -- the printer has no exception check
+ * inside a return expression) and a block with these quantum numbers exists (for unknown quantum numbers getBlockNumber returns
+ * ERROR_BLOCK_NUMBER = -1 and parts[-1] is read unchecked: see the remark at the end of the file). */
+//@rename StatesClassification_getBlockNumber => SC_stub_getBlockNumber_qn
+//@function Pomerol::DensityMatrix::getPart(Pomerol::Symmetrizer::QuantumNumbers const&) const as DensityMatrix_getPart_qn
+//@contract
+__CPROVER_requires(__CPROVER_is_fresh(self, sizeof(*self)) && g_dm == self && __CPROVER_is_fresh(in, sizeof(*in)))
+__CPROVER_requires(__CPROVER_is_fresh(self->S, sizeof(*self->S)) && self->parts.n <= PV_MAX && (long)self->parts.n == self->S->nblocks)
+__CPROVER_requires(self->S->Status >= Computed && __CPROVER_uninterpreted_block_of_qn(in->hash) >= 0)
+__CPROVER_assigns(self->parts.cur, self->parts.last_pos, g_bn_tmp)
+__CPROVER_ensures(__CPROVER_return_value == PART_AT(__CPROVER_uninterpreted_block_of_qn(in->hash)))
+//@end
+//@harness h_DM_getPart_qn enforce=DensityMatrix_getPart_qn props=C09 min_obl=132 reach=1 timeout=120
+void h_DM_getPart_qn(void)
+{
+  struct DensityMatrix *dm; QN *q;
+  DensityMatrix_getPart_qn(dm, q);
+  REACH("exit");
+}
+
 /* =====================================================================================================================
  * WHAT IS PROVED (for all inputs satisfying the stated type invariants), WHAT IS NOT
  *
@@ -408,10 +540,21 @@ void h_DM_compute(void)
  *   sum of the returned partial partition functions; Z is finite and >= 1 at every normalize() call (the ground state lies in some
  *   block: ghost), which is the pre-condition under which h_DMP_normalize keeps the weights in [0,1]; Status = Computed; early return.
  *   The two part functions are monitors here; mon_part_computeUnnormalized ASSUMES the post-condition proved in h_DMP_computeUnnormalized.
+ * h_DMP_getWeight / h_DMP_getPartialZ: the stored weight of state s (s inside the block: PRE-condition, Eigen's operator() is unchecked) /
+ *   the stored Z_part, bit-exact; nothing written.
+ * h_DM_getWeight (DensityMatrix::getWeight(state)): exStatusMismatch / exWrongState exactly when the density matrix or the states
+ *   classification is not computed or state >= StateSize; otherwise = getWeight(inner(state)) of the part of block(state) (the part selected is
+ *   parts[block(state)], the inner position handed to it is inside that block: monitor), parts[] is indexed inside the vector.
+ *   StatesClassification::getBlockNumber / getInnerState are contract stubs whose ASSUMED guarantees are the post-conditions of states.c.
+ * h_DM_getPart_b / h_DM_getPart_qn: the part at position b (0 <= b < #parts: PRE-condition) / at the block with the given quantum numbers
+ *   (PRE-conditions: S computed, such a block exists).  NOT covered: the exStatusMismatch exit of the QuantumNumbers overload.
+ *   REMARK (not a defect of a documented workflow; no caller inside the library): getPart(QuantumNumbers) -- like Hamiltonian::getPart(QuantumNumbers) --
+ *   does not test for ERROR_BLOCK_NUMBER: quantum numbers that belong to no block make it read parts[(size_t)-1].
  * NOT proved: sum of weights = 1, ratios exp(-beta dE) (accuracy statements); Z_part/Z <= 1 (needs a/b <= 1 for a <= b, not among the
- *   proved division facts); DensityMatrix::prepare, getWeight, getAverage*; the eps-proportional deviation bound of C19.
+ *   proved division facts); DensityMatrix::getAverage* (averages.c), prepare (dmprepare.c); the eps-proportional deviation bound of C19.
  *
- * ASSUMPTIONS introduced here: exp contract (x <= 0 ==> 0 <= exp x <= 1, exp(0) = 1, exp >= 0); eigenvalues finite and >= GroundEnergy
+ * ASSUMPTIONS introduced here: StatesClassification contract stubs (0 <= block(state) < #blocks, inner(state) < size of that block, block(qn) in [-1,#blocks):
+ *   post-conditions of states.c under its representation invariant); exp contract (x <= 0 ==> 0 <= exp x <= 1, exp(0) = 1, exp >= 0); eigenvalues finite and >= GroundEnergy
  *   (C03); Eigen `v /= c`; std::vector / StatesClassification stubs; the facts of stubs/fp_axiom.h (each proved by a lemma harness in gfterm.c).
  *
  * MUTANTS (scratch copy of /repo, re-extracted; obligation that failed)
@@ -426,4 +569,10 @@ void h_DM_compute(void)
  *   DM::isRetained:      parts[in+1]             -> PartVec_at.assertion.1, postcondition.1
  *   DM::compute:         normalize(1.0)          -> mon_part_normalize.assertion.3;   Z = instead of += -> loop invariant (accumulator != model)
  *                        no Status update        -> postcondition.2;   no early return -> postcondition.1
+ *   DMP::getWeight:      weights(0) -> postcondition.1;   weights(s)*beta -> postcondition.1
+ *   DMP::getPartialZ:    Z_part*beta -> postcondition.1;   GroundEnergy -> postcondition.1
+ *   DM::getWeight:       getWeight(state) instead of InnerState -> postcondition.2, mon_part_getWeight.assertion.2
+ *                        parts[0] -> postcondition.2, mon_part_getWeight.assertion.2;   Status < Prepared in the guard -> postcondition.1
+ *   DM::getPart(b):      parts[in+1] -> postcondition.1, PartVec_at.assertion.1;   parts[0] -> postcondition.1
+ *   DM::getPart(qn):     parts[..+1] -> postcondition.1, PartVec_at.assertion.1;   parts[0] -> postcondition.1, PartVec_at.assertion.1
  */
